@@ -140,6 +140,11 @@ let () =
   register "sync" (fun tk -> match tk with
     | [_; name] -> with_file "sync" name (fun h -> set_file name (Some (sync h)); take_snap name; obs "sync ok")
     | _ -> failwith "sync");
+  register "dirlink" (fun _ -> obs "dirlink ok");
+  register "rawduring" (fun _ -> obs "rawduring boundary");
+  register "syncclosed" (fun tk -> match tk with
+    | [_; name] -> with_file "syncclosed" name (fun _ -> obs "syncclosed err")
+    | _ -> failwith "syncclosed");
   register "drop" (fun tk -> match tk with
     | [_; name] -> with_file "drop" name (fun _ -> obs "drop ok")
     | _ -> failwith "drop");
